@@ -11,7 +11,7 @@
    (except that for a repeated index in an integer-list key the last occurrence wins, which
    is what NumPy does).  [None] = NumPy raises (IndexError / ValueError). *)
 From Coq Require Import ZArith List Bool.
-From Verif Require Import Shape PySlice.
+From Verif Require Import Py Shape PySlice NpIndex.
 Import ListNotations.
 Open Scope Z_scope.
 
@@ -26,10 +26,12 @@ Section NpAssign.
   Inductive key :=
   | KBasic (es : list kentry)         (* x[e1, ..., ek], k <= ndim *)
   | KFancy (ls : list (list Z))       (* x[[..], ..., [..]] : one integer list per axis, equal lengths *)
-  | KMask (m : list bool).            (* x[mask], mask of x's shape, given flat in row-major order *)
+  | KMask (m : list bool)             (* x[mask], mask of x's shape, given flat in row-major order *)
+  | KIndex (ix : index).              (* x[...] with Ellipsis / None / ints / slices (Spec/NpIndex.v) *)
 
-  (* what one key entry selects on an axis of extent dim *)
-  Inductive axis := AInt (k : Z) | ASel (ks : list Z).
+  (* what one key entry selects on an axis of extent dim; ANew = a None entry: a new axis of
+     length 1 in the selection that consumes no axis of the array *)
+  Inductive axis := AInt (k : Z) | ASel (ks : list Z) | ANew.
 
   Definition wrap_index (i dim : Z) : option Z :=
     if (- dim <=? i) && (i <? dim) then Some (if i <? 0 then i + dim else i) else None.
@@ -51,9 +53,9 @@ Section NpAssign.
     | _, _ => None          (* more entries than axes: IndexError *)
     end.
 
-  Definition full_slice : kentry := KSlice None None None.
+  Definition kfull_slice : kentry := KSlice None None None.
   Definition np_pad (es : list kentry) (sh : shape) : list kentry :=
-    es ++ repeat full_slice (length sh - length es).
+    es ++ repeat kfull_slice (length sh - length es).
 
   (* shape of the selection: one extent per slice entry *)
   Fixpoint selshape (axs : list axis) : list Z :=
@@ -61,6 +63,7 @@ Section NpAssign.
     | [] => []
     | AInt _ :: r => selshape r
     | ASel ks :: r => Z.of_nat (length ks) :: selshape r
+    | ANew :: r => 1 :: selshape r
     end.
 
   (* position of the LAST occurrence of x in l *)
@@ -76,15 +79,24 @@ Section NpAssign.
 
   (* if ix is selected: its position inside the selection (one coordinate per slice entry) *)
   Fixpoint locate (axs : list axis) (ix : idx) : option (list Z) :=
-    match axs, ix with
-    | [], [] => Some []
-    | AInt k :: r, i :: t => if i =? k then locate r t else None
-    | ASel ks :: r, i :: t =>
-      match last_pos Z.eqb i ks, locate r t with
-      | Some j, Some js => Some (j :: js)
-      | _, _ => None
+    match axs with
+    | [] => match ix with [] => Some [] | _ => None end
+    | AInt k :: r =>
+      match ix with
+      | i :: t => if i =? k then locate r t else None
+      | [] => None
       end
-    | _, _ => None
+    | ASel ks :: r =>
+      match ix with
+      | i :: t =>
+        match last_pos Z.eqb i ks, locate r t with
+        | Some j, Some js => Some (j :: js)
+        | _, _ => None
+        end
+      | [] => None
+      end
+    | ANew :: r =>
+      match locate r ix with Some js => Some (0 :: js) | None => None end
     end.
 
   (* the selected index tuples in row-major order of the result (for reads) *)
@@ -93,6 +105,7 @@ Section NpAssign.
     | [] => [[]]
     | AInt k :: r => map (cons k) (gather_idx r)
     | ASel ks :: r => flat_map (fun i => map (cons i) (gather_idx r)) ks
+    | ANew :: r => gather_idx r
     end.
 
   (* broadcasting a value of shape vs against a selection of shape ss: align at the RIGHT; a
@@ -126,6 +139,47 @@ Section NpAssign.
     | [] => match vs with [] => true | _ => false end
     | _ => bcast_ok vs ss
     end.
+
+  (* a general basic index: Ellipsis / missing axes become full slices (NpIndex.expand), every
+     entry is resolved against the axis it faces (NpIndex.resolve); index arrays inside such a
+     key are not part of this grammar *)
+  Definition axis_of_rentry (r : rentry) : option axis :=
+    match r with
+    | RInt i => Some (AInt i)
+    | RSel l => Some (ASel l)
+    | RNew => Some ANew
+    | RAdv _ => None
+    end.
+  Fixpoint axes_of_rentries (rs : list rentry) : option (list axis) :=
+    match rs with
+    | [] => Some []
+    | r :: t => match axis_of_rentry r, axes_of_rentries t with
+                | Some a, Some l => Some (a :: l)
+                | _, _ => None
+                end
+    end.
+  Definition np_index_axes (sh : shape) (ix : index) : option (list axis) :=
+    match expand (Z.of_nat (length sh)) ix with
+    | Ok ex => match resolve sh ex with
+               | Ok rs => axes_of_rentries rs
+               | Raise _ => None
+               end
+    | Raise _ => None
+    end.
+
+  (* elem = the key is made of one integer per axis and nothing else (NpIndex.np_scalar): an
+     ELEMENT assignment, which takes a 0-d value only; every other key (an Ellipsis or a None makes
+     the target a view, even a 0-d one) broadcasts an ndarray value against the selection *)
+  Definition index_value_fits (elem : bool) (vs ss : list Z) : bool :=
+    if elem then match vs with [] => true | _ => false end else bcast_ok vs ss.
+
+  Definition np_setitem_axes (a : idx -> V) (axs : list axis) (elem : bool) (v : arr) : option (idx -> V) :=
+    if index_value_fits elem (a_shape v) (selshape axs)
+    then Some (fun ix => match locate axs ix with
+                         | Some js => a_get v (bidx (a_shape v) js)
+                         | None => a ix
+                         end)
+    else None.
 
   (* ---------------------------------------------------------------- assignment *)
   Definition np_setitem_basic (sh : shape) (a : idx -> V) (es : list kentry) (v : arr)
@@ -203,6 +257,10 @@ Section NpAssign.
     | KBasic es => np_setitem_basic sh a es v
     | KFancy ls => match np_rows ls sh with Some rows => np_assign_rows a rows v | None => None end
     | KMask m => match mask_rows sh m with Some rows => np_assign_rows a rows v | None => None end
+    | KIndex ix => match np_index_axes sh ix with
+                   | Some axs => np_setitem_axes a axs (np_scalar sh ix) v
+                   | None => None
+                   end
     end.
 
   (* one assignment of a history; an assignment NumPy rejects leaves the array as it was *)
@@ -231,6 +289,11 @@ Section NpAssign.
       | Some rows => Some ([Z.of_nat (length rows)], map a rows)
       | None => None
       end
+    | KIndex ix =>
+      match np_index_axes sh ix with
+      | Some axs => Some (selshape axs, map a (gather_idx axs))
+      | None => None
+      end
     end.
 
   (* the array as a flat row-major list, and the number of elements different from the fill *)
@@ -244,6 +307,7 @@ Arguments a_shape {V}.
 Arguments a_get {V}.
 Arguments last_pos {A}.
 Arguments np_setitem_basic {V}.
+Arguments np_setitem_axes {V}.
 Arguments np_assign_rows {V}.
 Arguments np_setitem {V}.
 Arguments np_assign {V}.
@@ -251,3 +315,80 @@ Arguments np_full {V}.
 Arguments np_getitem {V}.
 Arguments np_flat {V}.
 Arguments np_count_nonfill {V}.
+
+(* ==================================================================== values with a dtype *)
+(* What `x[key] = value` does to the VALUE when x has an integer or boolean dtype (elements: Z;
+   booleans are 0 / 1).  A description of NumPy (2.x) validated by the correspondence only:
+     - an ndarray value is cast element-wise like C: integers wrap modulo 2^bits, floats are
+       truncated toward zero (defined only when the truncation fits the dtype; NaN / inf / larger
+       magnitudes are outside this description), to bool: non-zero;
+     - a Python int (a weak scalar) must fit the dtype, else OverflowError; to bool: non-zero;
+     - a Python float is truncated like an array element;
+     - a NumPy integer scalar (np.int64(300)) assigned through a BASIC index (ints, slices,
+       Ellipsis, None) is treated by ndarray.__setitem__ like a Python int (OverflowError when it
+       does not fit) when the array's dtype is SIGNED; for an unsigned dtype, and through an ADVANCED
+       index (integer lists, boolean mask) for any dtype, it is cast like a 0-d array (it wraps) —
+       as np.asarray(np.int64(300), dtype=int8) always does.  (Observed on NumPy 2.5.)
+   A float is given exactly, as a fraction n / d with d > 0 (float.as_integer_ratio()). *)
+Inductive dtype := DInt (bits : Z) (signed : bool) | DBool.
+
+Inductive rawval :=
+| RPyInt (z : Z)
+| RPyFloat (n d : Z)
+| RNpInt (z : Z)
+| RIntArr (sh : list Z) (flat : list Z)
+| RFloatArr (sh : list Z) (flat : list (Z * Z)).
+
+Definition dt_min (dt : dtype) : Z :=
+  match dt with DInt w true => - 2 ^ (w - 1) | _ => 0 end.
+Definition dt_max (dt : dtype) : Z :=
+  match dt with DInt w true => 2 ^ (w - 1) - 1 | DInt w false => 2 ^ w - 1 | DBool => 1 end.
+Definition dt_fits (dt : dtype) (z : Z) : bool := (dt_min dt <=? z) && (z <=? dt_max dt).
+
+Definition cast_int (dt : dtype) (z : Z) : Z :=
+  match dt with
+  | DInt w true => (z + 2 ^ (w - 1)) mod 2 ^ w - 2 ^ (w - 1)
+  | DInt w false => z mod 2 ^ w
+  | DBool => if z =? 0 then 0 else 1
+  end.
+
+Definition cast_float (dt : dtype) (nd : Z * Z) : option Z :=
+  let '(n, d) := nd in
+  match dt with
+  | DBool => Some (if n =? 0 then 0 else 1)
+  | _ => let t := Z.quot n d in if dt_fits dt t then Some t else None
+  end.
+
+Fixpoint cast_floats (dt : dtype) (l : list (Z * Z)) : option (list Z) :=
+  match l with
+  | [] => Some []
+  | x :: r => match cast_float dt x, cast_floats dt r with
+              | Some a, Some b => Some (a :: b)
+              | _, _ => None
+              end
+  end.
+
+Definition weak_int (dt : dtype) (z : Z) : res (list Z * list Z) :=
+  match dt with
+  | DBool => Ok ([], [if z =? 0 then 0 else 1])
+  | _ => if dt_fits dt z then Ok ([], [z]) else Raise OverflowError
+  end.
+
+Definition dt_unsigned (dt : dtype) : bool := match dt with DInt _ false => true | _ => false end.
+
+Definition key_adv (k : key) : bool := match k with KFancy _ | KMask _ => true | _ => false end.
+
+(* the value as ndarray.__setitem__ converts it (adv: the key is an advanced index):
+   None = outside this description *)
+Definition np_cast (dt : dtype) (adv : bool) (raw : rawval) : option (res (list Z * list Z)) :=
+  match raw with
+  | RPyInt z => Some (weak_int dt z)
+  | RNpInt z => if adv || dt_unsigned dt then Some (Ok ([], [cast_int dt z])) else Some (weak_int dt z)
+  | RPyFloat n d => match cast_float dt (n, d) with Some t => Some (Ok ([], [t])) | None => None end
+  | RIntArr sh flat => Some (Ok (sh, map (cast_int dt) flat))
+  | RFloatArr sh flat => match cast_floats dt flat with Some l => Some (Ok (sh, l)) | None => None end
+  end.
+
+(* an array value given by its shape and its elements in row-major order *)
+Definition arr_of_flat (sh flat : list Z) : arr Z :=
+  mkArr sh (fun ix => nth (Z.to_nat (ravel sh ix)) flat 0).
